@@ -285,6 +285,88 @@ func run(r *Rng, tier string, n int) {
 			}
 		}
 	}
+	// (2b') names that FIRST appear inside the RDATA of a record (compressible or not, single or in a list) and
+	// are used again afterwards: as owner of later records, as a parent of later owners, in a later record of the
+	// same type. What Len's suffix set holds and what the packer's map holds must stay in step for every name
+	// field of every type
+	for _, t := range types {
+		var base dns.RR
+		for k := 0; k < 30 && base == nil; k++ {
+			rr, info := GenRR(r, pool, t, false)
+			if rr == nil || !info.WellFormed {
+				continue
+			}
+			nf := 0
+			ForEachNameField(rr, func(get func() string, set func(string)) { nf++ })
+			if nf == 0 {
+				break
+			}
+			base = rr
+		}
+		if base == nil {
+			continue
+		}
+		i := 0
+		var names []string
+		ForEachNameField(base, func(get func() string, set func(string)) {
+			nm := "f" + Itoa(i) + ".rd" + Itoa(i) + ".in-rdata.example.net."
+			set(nm)
+			names = append(names, nm)
+			i++
+		})
+		base.Header().Name = "owner.example.org."
+		for _, compress := range []bool{true, false} {
+			for variant := 0; variant < 3; variant++ {
+				m := new(dns.Msg)
+				m.Compress = compress
+				m.SetQuestion("owner.example.org.", t)
+				m.Answer = []dns.RR{dns.Copy(base)}
+				for _, nm := range names {
+					switch variant {
+					case 0: // the same name as owner
+						m.Extra = append(m.Extra, &dns.A{Hdr: dns.RR_Header{Name: nm, Rrtype: dns.TypeA, Class: dns.ClassINET}, A: net.IPv4(192, 0, 2, 1).To4()})
+					case 1: // a child and a parent of the name
+						m.Extra = append(m.Extra, &dns.A{Hdr: dns.RR_Header{Name: "child." + nm, Rrtype: dns.TypeA, Class: dns.ClassINET}, A: net.IPv4(192, 0, 2, 1).To4()})
+						m.Ns = append(m.Ns, &dns.NS{Hdr: dns.RR_Header{Name: nm[strings.Index(nm, ".")+1:], Rrtype: dns.TypeNS, Class: dns.ClassINET}, Ns: nm})
+					case 2: // the record again, and a compressible name equal to it
+						m.Answer = append(m.Answer, dns.Copy(base))
+						m.Ns = append(m.Ns, &dns.NS{Hdr: dns.RR_Header{Name: "owner.example.org.", Rrtype: dns.TypeNS, Class: dns.ClassINET}, Ns: nm})
+					}
+				}
+				checkLen(m, false, variant == 0 && compress, "rdata-names-reused")
+				st["rdata_names_reused_messages"]++
+			}
+		}
+	}
+	// (2b'') names whose FIRST label begins with an escape (escaped dot, escaped backslash, \DDD), alone and as a
+	// run of backslashes reaching the first dot: the label walkers scan backwards from each dot to offset 0
+	for _, first := range []string{"\\.", "\\\\", "\\\\\\.", "\\046", "\\.\\.", "\\\\\\\\", "\\000", "x\\."} {
+		for _, rest := range []string{"a.org.", "org.", ""} {
+			nm := first + "." + rest
+			if _, ok := dns.IsDomainName(nm); !ok {
+				continue
+			}
+			for _, compress := range []bool{true, false} {
+				m := new(dns.Msg)
+				m.Compress = compress
+				m.SetQuestion(nm, dns.TypeMX)
+				m.Answer = []dns.RR{
+					&dns.MX{Hdr: dns.RR_Header{Name: nm, Rrtype: dns.TypeMX, Class: dns.ClassINET}, Preference: 1, Mx: "mail." + nm},
+					&dns.MX{Hdr: dns.RR_Header{Name: "w." + nm, Rrtype: dns.TypeMX, Class: dns.ClassINET}, Preference: 2, Mx: nm},
+				}
+				// what a splitter that mistakes an escaped dot for a label boundary would take for a parent
+				for i := 0; i < len(nm)-1; i++ {
+					if nm[i] == '.' {
+						if _, ok := dns.IsDomainName(nm[i+1:]); ok {
+							m.Extra = append(m.Extra, &dns.A{Hdr: dns.RR_Header{Name: nm[i+1:], Rrtype: dns.TypeA, Class: dns.ClassINET}, A: net.IPv4(192, 0, 2, 2).To4()})
+						}
+					}
+				}
+				checkLen(m, false, compress, "escape-at-start")
+				st["escape_at_start_messages"]++
+			}
+		}
+	}
 	// (2c) character-strings whose TEXT is longer than 255 characters while the octets they denote are at most
 	// 255 (escapes shrink on the wire), in every string-carrying type; and OPT records whose owner is not the
 	// root (sloppy peers send them; Unpack and Pack accept them): Len never underestimates, Pack has room
